@@ -3,6 +3,7 @@ import Ts.Resolve
 import Ts.Cycle
 import Ts.Order
 import Ts.Refine
+import Ts.CycleSound
 namespace TsDrv
 open Ts
 
@@ -23,7 +24,7 @@ partial def loop (h : IO.FS.Stream) (g : G) : IO Unit := do
     loop h g     -- the harness sorts a copy
   | ["wf"] =>
     -- the premises of `Ts.G.toposort_sound/complete/cyclic`, evaluated on a build the probe declares well formed
-    IO.println s!"{wfCheck g}"; loop h g
+    IO.println s!"{wfCheck g && closedCheck g}"; loop h g
   | ["cycle", seed, ans] =>
     -- ans: the list FindCycle returned (observed choice), validated against the specification
     let l := if ans = "-" then [] else (ans.splitOn ",").filterMap (·.toNat?)
